@@ -179,7 +179,7 @@ def make_exec(ir, opts, tier):
         ov = {}
         for pair in opts['override'].split(';'):
             k, v = pair.split(':')
-            ks = [n for n in ir['funcs'] if n == k or n.endswith('.' + k)]
+            ks = [n for n in ir['funcs'] if n == k or n.endswith('.' + k) or n.endswith('/' + k)]
             vs = [n for n in ir['funcs'] if n.endswith('.' + v)]
             if len(ks) != 1 or len(vs) != 1:
                 raise RuntimeError('override %s: %d targets, %d stubs' % (pair, len(ks), len(vs)))
